@@ -10,6 +10,7 @@
 static unsigned long long transitions = 0;
 static fb_t A, B, C, SA;
 static const int tiny = (WSIZE != 64);
+static int alt_poly = 0;
 
 static gf2 gf_from_mpz(const mpz_t z) { gf2 r = gf_zero(); size_t c = 0; if (mpz_sgn(z)) mpz_export(r.w, &c, -1, 8, 0, 0, z); return r; }
 static void gf_to_mpz(mpz_t z, gf2 a) { mpz_import(z, GW, -1, 8, 0, 0, a.w); }
@@ -48,9 +49,17 @@ static void harness_setup(void) {
 	if (core_init() != RLC_OK) exit(2);
 	vf_reseed();
 	fb_new(A); fb_new(B); fb_new(C); fb_new(SA); mpz_inits(RN, RH, NULL);
+	const char *alt = getenv("VF_FB_POLY"); /* "t:a" trinomial, "p:a,b,c" pentanomial, "sqrt" the library's second 283-bit set */
+	if (alt && !*alt) alt = NULL;
+	alt_poly = alt != NULL;
 	if (tiny) {
-		int t[] = {3}; gf_set_poly(17, t, 1);
-		fb_poly_set_trino(3);
+		int t[3] = {3, 0, 0}, nt = 1;
+		if (alt && alt[0] == 't') { nt = 1; t[0] = atoi(alt + 2); } else if (alt && alt[0] == 'p') { nt = 3; if (sscanf(alt + 2, "%d,%d,%d", &t[0], &t[1], &t[2]) != 3) exit(2); }
+		gf_set_poly(17, t, nt);
+		/* the alternative polynomial must be irreducible (m prime): x^(2^m) = x and no root in GF(2) */
+		{ gf2 x = gf_from_u64(2), y = x; for (int i = 0; i < GF_M; i++) y = gf_sqr(y); int wt = 0; for (int i = 0; i <= GF_M; i++) wt += gf_bit(GF_POLY, i); if (!gf_eq(x, y) || !(wt & 1)) { fprintf(stderr, "VF_FB_POLY is not irreducible\n"); exit(2); } }
+		if (nt == 1) fb_poly_set_trino(t[0]); else fb_poly_set_penta(t[0], t[1], t[2]);
+		if (alt) goto polycheck;
 		find_bcurve("K17-1 Koblitz a=1 b=1", 1, 1, 1);
 		find_bcurve("K17-0 Koblitz a=0 b=1", 0, 1, 1);
 		find_bcurve("R17 random a=1", 1, 2, 0);
@@ -62,10 +71,12 @@ static void harness_setup(void) {
 #elif FB_POLYN == 233
 		int t[] = {74}; gf_set_poly(233, t, 1); fb_param_set(NIST_233);
 #else
+		if (alt) { int t[] = {97, 89, 87}; gf_set_poly(283, t, 3); fb_param_set(SQRT_283); } else {
 		int t[] = {12, 7, 5}; gf_set_poly(283, t, 3);
-		fb_param_set(NIST_283);
+		fb_param_set(NIST_283); }
 #endif
 	}
+polycheck:
 	/* the library's polynomial must be the reference's */
 	gf2 lp = gf_zero(); memcpy(lp.w, fb_poly_get(), sizeof(fb_st)); gf_setbit(&lp, GF_M);
 	if (!gf_eq(lp, GF_POLY)) { fprintf(stderr, "library polynomial differs from the reference polynomial\n"); exit(2); }
@@ -285,10 +296,169 @@ static void do_ebsim(vf_case *c) { /* cid, xP,yP,k, xQ,yQ,m */
 	if (bpt_eq(P, RG)) { const char *kf = (mpz_cmpabs(c->v[3], RN) >= 0 || mpz_cmpabs(c->v[6], RN) >= 0) ? "L14-eb-unreduced-scalar" : NULL; eb_inject(q, Q, 0, 1); vf_reseed(); VF_TRY(th, eb_mul_sim_gen(r, k, q, m)); if (th) vf_fail(kf, "eb_mul_sim_gen raised %d", th); else expect_bpt("eb_mul_sim_gen", r, E, 1, kf); }
 }
 
+
+/* ---------------------------------------------------------------- quadratic extension GF(2^m)[s]/(s^2 + s + 1): args a0, a1, b0, b1 */
+typedef struct { gf2 c0, c1; } gf22;
+static gf22 g22_mul(gf22 a, gf22 b) { /* schoolbook with s^2 = s + 1 */
+	gf2 p00 = gf_mul(a.c0, b.c0), p01 = gf_mul(a.c0, b.c1), p10 = gf_mul(a.c1, b.c0), p11 = gf_mul(a.c1, b.c1);
+	gf22 r; r.c0 = gf_add(p00, p11); r.c1 = gf_add(gf_add(p01, p10), p11); return r;
+}
+static int g22_eq(gf22 a, gf22 b) { return gf_eq(a.c0, b.c0) && gf_eq(a.c1, b.c1); }
+static void fb2_from(fb2_t c, gf22 a) { fb_from_gf(c[0], a.c0); fb_from_gf(c[1], a.c1); }
+static gf22 g22_from(const fb2_t a) { gf22 r; r.c0 = gf_from_fb(a[0]); r.c1 = gf_from_fb(a[1]); return r; }
+static void expect_fb2(const char *what, const fb2_t got, gf22 exp) {
+	transitions++; gf22 g = g22_from(got);
+	if (!g22_eq(g, exp)) vf_fail(NULL, "%s: expected (%llx.., %llx..) got (%llx.., %llx..)", what, (unsigned long long)exp.c0.w[0], (unsigned long long)exp.c1.w[0], (unsigned long long)g.c0.w[0], (unsigned long long)g.c1.w[0]);
+	else if (!fb_in_range(got[0]) || !fb_in_range(got[1])) vf_fail(NULL, "%s: a component has bits at or above x^m", what);
+}
+static void do_fb2(vf_case *c) {
+	int th; gf22 a, b; a.c0 = gf_from_mpz(c->v[0]); a.c1 = gf_from_mpz(c->v[1]); b.c0 = gf_from_mpz(c->v[2]); b.c1 = gf_from_mpz(c->v[3]);
+	static fb2_t XA, XB, XC; static int init = 0; if (!init) { init = 1; fb2_new(XA); fb2_new(XB); fb2_new(XC); }
+	gf22 pr = g22_mul(a, b), sq = g22_mul(a, a), one, s, zero; one.c0 = gf_one(); one.c1 = gf_zero(); s.c0 = gf_zero(); s.c1 = gf_one(); zero.c0 = zero.c1 = gf_zero();
+	int same = g22_eq(a, b);
+	for (int al = 0; al < 4; al++) { if (al == 3 && !same) continue;
+		fb2_from(XA, a); fb2_from(XB, b); junk(XC[0]); junk(XC[1]); fb_t *pa = XA, *pb = al == 3 ? XA : XB, *pc = al == 1 ? XA : al == 2 ? XB : XC;
+		VF_TRY(th, fb2_mul(pc, pa, pb)); char w[40]; snprintf(w, sizeof w, "fb2_mul[alias %d]", al); if (th) vf_fail(NULL, "%s raised %d", w, th); else expect_fb2(w, pc, pr); }
+	for (int al = 0; al < 2; al++) { fb2_from(XA, a); junk(XC[0]); junk(XC[1]); fb_t *pc = al ? XA : XC;
+		VF_TRY(th, fb2_sqr(pc, XA)); if (th) vf_fail(NULL, "fb2_sqr raised %d", th); else expect_fb2(al ? "fb2_sqr[alias]" : "fb2_sqr", pc, sq);
+		fb2_from(XA, a); junk(XC[0]); junk(XC[1]); VF_TRY(th, fb2_mul_nor(pc, XA)); if (th) vf_fail(NULL, "fb2_mul_nor raised %d", th); else expect_fb2(al ? "fb2_mul_nor[alias]" : "fb2_mul_nor", pc, g22_mul(a, s));
+		fb2_from(XA, a); junk(XC[0]); junk(XC[1]); VF_TRY(th, fb2_inv(pc, XA));
+		if (g22_eq(a, zero)) { transitions++; if (!th) vf_fail(NULL, "fb2_inv: inversion of zero was not reported as an error"); }
+		else if (th) vf_fail(NULL, "fb2_inv raised %d", th);
+		else { transitions++; gf22 g = g22_from(pc); if (!g22_eq(g22_mul(g, a), one)) vf_fail(NULL, "fb2_inv%s: a * result != 1", al ? "[alias]" : ""); else if (!fb_in_range(pc[0]) || !fb_in_range(pc[1])) vf_fail(NULL, "fb2_inv: unreduced component"); }
+		/* z^2 + z = a is solvable in the extension iff Tr(a) = Tr_m(a1) = 0 (m odd); the documented precondition */
+		if ((GF_M & 1) && gf_trace(a.c1) == 0) { fb2_from(XA, a); junk(XC[0]); junk(XC[1]); VF_TRY(th, fb2_slv(pc, XA)); transitions++;
+			if (th) vf_fail(NULL, "fb2_slv raised %d", th); else { gf22 z = g22_from(pc), q = g22_mul(z, z); q.c0 = gf_add(q.c0, z.c0); q.c1 = gf_add(q.c1, z.c1);
+				if (!g22_eq(q, a)) vf_fail(NULL, "fb2_slv%s: result does not solve z^2 + z = a (trace 0)", al ? "[alias]" : ""); else if (!fb_in_range(pc[0]) || !fb_in_range(pc[1])) vf_fail(NULL, "fb2_slv: unreduced component"); } }
+	}
+	{ fb2_from(XA, a); fb2_from(XB, b); junk(XC[0]); junk(XC[1]); VF_TRY(th, fb2_add(XC, XA, XB)); gf22 sm; sm.c0 = gf_add(a.c0, b.c0); sm.c1 = gf_add(a.c1, b.c1); if (th) vf_fail(NULL, "fb2_add raised"); else expect_fb2("fb2_add", XC, sm);
+		int e = 9; VF_TRY(th, e = fb2_cmp(XA, XB)); transitions++; if (!th && ((e == RLC_EQ) != same)) vf_fail(NULL, "fb2_cmp wrong");
+		int z = 9; VF_TRY(th, z = fb2_is_zero(XA)); transitions++; if (!th && ((z != 0) != g22_eq(a, zero))) vf_fail(NULL, "fb2_is_zero wrong"); }
+}
+/* iterated squaring with the precomputed table, reduction of double-length polynomials, bit access, shifts: args a, b */
+static gf2 gf_rdc_wide(const uint64_t *in, int words) { /* reduce a polynomial of up to 2 GW words */
+	uint64_t r[2 * GW]; memset(r, 0, sizeof r); memcpy(r, in, (size_t)words * 8);
+	for (int i = 2 * GW * 64 - 1; i >= GF_M; i--) if ((r[i >> 6] >> (i & 63)) & 1) { int sh = i - GF_M, ws = sh >> 6, bs = sh & 63; for (int j = 0; j < GW && j + ws < 2 * GW; j++) { r[j + ws] ^= GF_POLY.w[j] << bs; if (bs && j + ws + 1 < 2 * GW) r[j + ws + 1] ^= GF_POLY.w[j] >> (64 - bs); } }
+	gf2 o; memcpy(o.w, r, sizeof o.w); return o;
+}
+static fb_st *ITR_TAB[GW * 64 + 4];
+static void do_fbmisc(vf_case *c) {
+	int th; gf2 a = gf_from_mpz(c->v[0]), b = gf_from_mpz(c->v[1]);
+	/* table-driven iterated squaring for every count (tiny) / a count alphabet */
+	{ gf2 s = a; for (int k = 0; k <= GF_M + 1; k++) { if (tiny || k < 4 || k > GF_M - 2 || k % 37 == 0) {
+			if (!ITR_TAB[k]) { ITR_TAB[k] = malloc(sizeof(fb_st) * RLC_FB_TABLE_QUICK); VF_TRY(th, fb_itr_pre_quick(ITR_TAB[k], k)); if (th) { vf_fail(NULL, "fb_itr_pre_quick(%d) raised", k); free(ITR_TAB[k]); ITR_TAB[k] = NULL; } }
+			if (ITR_TAB[k]) for (int al = 0; al < 2; al++) { fb_from_gf(A, a); junk(C); fb_st *pc = al ? A : C; VF_TRY(th, fb_itr_quick(pc, A, ITR_TAB[k])); if (th) vf_fail(NULL, "fb_itr_quick(%d) raised", k); else expect_fb(al ? "fb_itr_quick[alias]" : "fb_itr_quick", pc, s, NULL); }
+			fb_from_gf(A, a); VF_TRY(th, fb_itr_basic(A, A, k)); if (!th) expect_fb("fb_itr_basic[alias]", A, s, NULL); } s = gf_sqr(s); } }
+	/* reductions of the unreduced product a * b and of a shifted up to the top of the double-length buffer */
+	{ uint64_t wide[2 * GW]; memset(wide, 0, sizeof wide);
+		for (int i = 0; i < GF_M; i++) if (gf_bit(b, i)) { int ws = i >> 6, bs = i & 63; for (int j = 0; j < GW; j++) { wide[j + ws] ^= a.w[j] << bs; if (bs && j + ws + 1 < 2 * GW) wide[j + ws + 1] ^= a.w[j] >> (64 - bs); } }
+		gf2 exp = gf_rdc_wide(wide, 2 * GW);
+		dv_t d; dv_null(d); dv_new(d); for (int v = 0; v < 2; v++) { memset(d, 0, 2 * RLC_FB_DIGS * sizeof(dig_t)); memcpy(d, wide, 2 * RLC_FB_DIGS * sizeof(dig_t) < sizeof wide ? 2 * RLC_FB_DIGS * sizeof(dig_t) : sizeof wide); junk(C);
+			if (v) VF_TRY(th, fb_rdc_quick(C, d)); else VF_TRY(th, fb_rdc_basic(C, d)); if (th) vf_fail(NULL, "%s raised", v ? "fb_rdc_quick" : "fb_rdc_basic"); else expect_fb(v ? "fb_rdc_quick" : "fb_rdc_basic", C, exp, NULL); }
+		dv_free(d); }
+	/* bit access and comparison with a digit */
+	{ fb_from_gf(A, a); for (int i = 0; i < GF_M; i += (tiny ? 1 : 13)) { int g = 9; VF_TRY(th, g = fb_get_bit(A, i)); transitions++; if (th || g != gf_bit(a, i)) vf_fail(NULL, "fb_get_bit(%d) wrong", i); }
+		int i = (int)(b.w[0] % (uint64_t)GF_M); for (int v = 0; v < 2; v++) { fb_from_gf(A, a); VF_TRY(th, fb_set_bit(A, i, v)); gf2 e = a; if (gf_bit(e, i)) e.w[i >> 6] ^= (uint64_t)1 << (i & 63); if (v) gf_setbit(&e, i); if (th) vf_fail(NULL, "fb_set_bit raised"); else expect_fb("fb_set_bit", A, e, NULL); }
+		if (gf_deg(b) < VF_DIGB) { fb_from_gf(A, a); int e = 9; VF_TRY(th, e = fb_cmp_dig(A, (dig_t)b.w[0])); transitions++; if (!th && ((e == RLC_EQ) != gf_eq(a, b))) vf_fail(NULL, "fb_cmp_dig wrong"); } }
+}
+static void do_fbstr(vf_case *c) { /* args a */
+	int th; gf2 a = gf_from_mpz(c->v[0]);
+	/* strings in every radix that is a power of two: positional notation of the polynomial's integer image, round trip */
+	{ mpz_t z; mpz_init(z); gf_to_mpz(z, a); for (int lg = 1; lg <= 6; lg++) { unsigned radix = 1u << lg; char ref[700], got[720]; mpz_get_str(ref, (int)radix <= 36 ? (int)radix : 62, z); /* digits above 36 are compared through the round trip only */
+			fb_from_gf(A, a); size_t sz = 0; VF_TRY(th, sz = (size_t)fb_size_str(A, radix)); transitions++; if (th) { vf_fail(NULL, "fb_size_str(radix %u) raised", radix); continue; }
+			size_t nd = mpz_sgn(z) ? (mpz_sizeinbase(z, 2) + (size_t)lg - 1) / (size_t)lg : 1; if (sz != nd + 1) { vf_fail(NULL, "fb_size_str(radix %u) = %zu, expected %zu digits + terminator", radix, sz, nd); continue; }
+			memset(got, 0x7E, sizeof got); VF_TRY(th, fb_write_str(got + 8, sz, A, radix)); transitions++; if (th) { vf_fail(NULL, "fb_write_str(radix %u) raised %d", radix, th); continue; }
+			if (got[7] != 0x7E || got[8 + sz] != 0x7E) vf_fail(NULL, "fb_write_str wrote outside its buffer"); if (got[8 + sz - 1] != 0) { vf_fail(NULL, "fb_write_str: no terminator at the advertised length"); continue; }
+			if (radix <= 36) { int same = strlen(got + 8) == strlen(ref); for (size_t i = 0; same && ref[i]; i++) { char x = got[8 + i], y = ref[i]; if (x >= 'a' && x <= 'z') x = (char)(x - 32); if (y >= 'a' && y <= 'z') y = (char)(y - 32); if (x != y) same = 0; } if (!same) vf_fail(NULL, "fb_write_str(radix %u) = \"%s\", positional notation is \"%s\"", radix, got + 8, ref); }
+			junk(C); VF_TRY(th, fb_read_str(C, got + 8, strlen(got + 8), radix)); transitions++; if (th) vf_fail(NULL, "fb_read_str(radix %u) raised on fb_write_str's output", radix); else expect_fb("fb_read_str(fb_write_str)", C, a, NULL);
+			VF_TRY(th, fb_write_str(got + 8, sz - 1, A, radix)); transitions++; if (!th) vf_fail(NULL, "fb_write_str(radix %u) accepted a buffer one byte short", radix); }
+		mpz_clear(z); }
+}
+/* binary-curve point codec, decoding direction: args cid, len, tag, X, Y (byte string tag || X [|| Y]) */
+static int ref_eb_decode(bpt *P, int *either, size_t len, unsigned tag, const mpz_t X, const mpz_t Y) {
+	*either = 0;
+	if (len == 1) { if (tag == 0) { *P = bpt_inf(); return 1; } return 0; }
+	size_t fbits = 8 * RLC_FB_BYTES; if (mpz_sizeinbase(X, 2) > fbits && mpz_sgn(X)) return 0;
+	if (len == RLC_FB_BYTES + 1) {
+		if (tag != 2 && tag != 3) return 0; if (mpz_sgn(X) && mpz_sizeinbase(X, 2) > (size_t)GF_M) return 0;
+		gf2 x = gf_from_mpz(X); if (gf_is_zero(x)) { /* (0, sqrt b): SEC 1 encodes it as 02 || 0 (compressed bit 0 by convention); 03 || 0 is not canonical */ P->inf = 0; P->x = x; P->y = gf_sqrt(EB_B); return tag == 2; }
+		gf2 xi = gf_inv(x); gf2 cc = gf_add(gf_add(x, EB_A), gf_mul(EB_B, gf_sqr(xi))); if (gf_trace(cc)) return 0;
+		if (!(GF_M & 1)) return 0; gf2 z = gf_htrace(cc); if ((unsigned)gf_bit(z, 0) != (tag & 1)) z = gf_add(z, gf_one());
+		P->inf = 0; P->x = x; P->y = gf_mul(z, x); return bpt_on_curve(*P);
+	}
+	if (len == 2 * RLC_FB_BYTES + 1) {
+		if (tag != 4) return 0; if ((mpz_sgn(X) && mpz_sizeinbase(X, 2) > (size_t)GF_M) || (mpz_sgn(Y) && mpz_sizeinbase(Y, 2) > (size_t)GF_M)) return 0;
+		P->inf = 0; P->x = gf_from_mpz(X); P->y = gf_from_mpz(Y); return bpt_on_curve(*P);
+	}
+	return 0;
+}
+static void put_be(uint8_t *o, size_t n, const mpz_t z) { memset(o, 0, n); if (mpz_sgn(z)) { size_t k = (mpz_sizeinbase(z, 2) + 7) / 8; if (k <= n) mpz_export(o + n - k, NULL, 1, 1, 1, 0, z); else { uint8_t tmp[200]; mpz_export(tmp, NULL, 1, 1, 1, 0, z); memcpy(o, tmp + k - n, n); } } }
+static void do_ebdec(vf_case *c) {
+	int th; size_t len = mpz_get_ui(c->v[1]); unsigned tag = (unsigned)mpz_get_ui(c->v[2]); static uint8_t buf[200], out[260];
+	if (len > 150) return; memset(buf, 0, sizeof buf);
+	if (len >= 1) buf[0] = (uint8_t)tag; if (len > 1) { size_t xl = len - 1 < RLC_FB_BYTES ? len - 1 : RLC_FB_BYTES; put_be(buf + 1, xl, c->v[3]); if (len - 1 > xl) put_be(buf + 1 + xl, len - 1 - xl, c->v[4]); }
+	bpt P = bpt_inf(), Q; int either; int valid = ref_eb_decode(&P, &either, len, tag, c->v[3], c->v[4]);
+	eb_t e; eb_new(e); memset(e, 0x5A, sizeof(eb_st)); e->coord = BASIC;
+	VF_TRY(th, eb_read_bin(e, buf, len)); transitions++;
+	if (!valid) { if (!th) vf_fail(NULL, "eb_read_bin accepted an invalid encoding (len %zu, tag %02x)", len, tag); return; }
+	if (th) { if (!either) vf_fail(NULL, "eb_read_bin raised %d on a valid encoding (len %zu tag %02x)", th, len, tag); else vf_stat_add("x.compressed_order_two_point_refused", 1); return; }
+	if (!eb_extract(&Q, e) || !bpt_eq(P, Q)) { vf_fail(NULL, "eb_read_bin decoded a different point (len %zu tag %02x)", len, tag); return; }
+	int pack = (len == RLC_FB_BYTES + 1); size_t sz = 0; VF_TRY(th, sz = (size_t)eb_size_bin(e, pack)); transitions++;
+	if (th || sz != len) { vf_fail(NULL, "eb_size_bin = %zu for an accepted encoding of %zu bytes", sz, len); return; }
+	memset(out, 0xC7, sizeof out); VF_TRY(th, eb_write_bin(out + 16, len, e, pack)); transitions++;
+	if (th) { vf_fail(NULL, "eb_write_bin raised %d on a decoded point", th); return; }
+	if (memcmp(out + 16, buf, len)) vf_fail(NULL, "eb_write_bin: re-encoding differs from the accepted input (tag %02x -> %02x)", buf[0], out[16]);
+	for (size_t j = 0; j < 16; j++) if (out[j] != 0xC7 || out[16 + len + j] != 0xC7) { vf_fail(NULL, "eb_write_bin wrote outside its buffer"); break; }
+}
+/* encoding direction: args cid, x, y */
+static void do_ebenc(vf_case *c) {
+	int th; bpt P = pt_arg(c->v[1], c->v[2]), Q; static uint8_t out[260]; eb_t e, d; eb_new(e); eb_new(d);
+	int two = !P.inf && gf_is_zero(P.x);
+	for (int rep = 0; rep < 2; rep++) for (int pack = 0; pack < 2; pack++) {
+		eb_inject(e, P, rep, 7); size_t esz = P.inf ? 1 : (pack ? RLC_FB_BYTES + 1 : 2 * RLC_FB_BYTES + 1), sz = 0;
+		const char *kf = NULL;
+		VF_TRY(th, sz = (size_t)eb_size_bin(e, pack)); transitions++; if (th || sz != esz) { vf_fail(NULL, "eb_size_bin(pack=%d) = %zu expected %zu", pack, sz, esz); continue; }
+		memset(out, 0xC7, sizeof out); VF_TRY(th, eb_write_bin(out + 16, sz, e, pack)); transitions++;
+		if (th) { vf_fail(kf, "eb_write_bin(pack=%d, rep=%d) raised %d", pack, rep, th); continue; }
+		for (size_t j = 0; j < 16; j++) if (out[j] != 0xC7 || out[16 + sz + j] != 0xC7) { vf_fail(NULL, "eb_write_bin wrote outside its buffer"); break; }
+		/* canonical bytes: the reference decodes them to P */
+		{ mpz_t X, Y; mpz_inits(X, Y, NULL); int either = 0, ok; if (sz > 1) { mpz_import(X, RLC_FB_BYTES, 1, 1, 1, 0, out + 17); if (!pack) mpz_import(Y, RLC_FB_BYTES, 1, 1, 1, 0, out + 17 + RLC_FB_BYTES); }
+			ok = ref_eb_decode(&Q, &either, sz, out[16], X, Y); mpz_clears(X, Y, NULL);
+			if (!ok || !bpt_eq(P, Q)) { vf_fail(kf, "eb_write_bin(pack=%d, rep=%d): bytes are not the canonical encoding of the point (tag %02x)", pack, rep, out[16]); continue; } }
+		memset(d, 0x5A, sizeof(eb_st)); d->coord = BASIC; VF_TRY(th, eb_read_bin(d, out + 16, sz)); transitions++;
+		if (th) { vf_fail(kf, "eb_read_bin rejects eb_write_bin's own output (pack=%d)", pack); continue; }
+		if (!eb_extract(&Q, d) || !bpt_eq(P, Q)) vf_fail(kf, "decode(encode(P)) != P (pack=%d)", pack);
+		if (sz > 0) { memset(out, 0xC7, sizeof out); VF_TRY(th, eb_write_bin(out + 16, sz - 1, e, pack)); transitions++; if (!th) vf_fail(NULL, "eb_write_bin accepted a buffer one byte short (pack=%d)", pack); for (size_t j = 0; j < 16; j++) if (out[16 + sz - 1 + j] != 0xC7) { vf_fail(NULL, "eb_write_bin wrote beyond a too-short buffer"); break; } }
+	}
+	/* pack / unpack on the point itself */
+	if (!P.inf) { eb_inject(e, P, 0, 1); VF_TRY(th, eb_pck(d, e)); transitions++; if (th) vf_fail(NULL, "eb_pck raised"); else { gf2 z = two ? gf_zero() : gf_mul(P.y, gf_inv(P.x)); gf2 yb = gf_from_fb(d->y); if (!gf_eq(gf_from_fb(d->x), P.x) || !gf_eq(yb, gf_from_u64((uint64_t)gf_bit(z, 0)))) vf_fail(NULL, "eb_pck: wrong compressed form");
+			int r = 0; VF_TRY(th, r = eb_upk(e, d)); transitions++; if (th || !r) vf_fail(NULL, "eb_upk refuses eb_pck's output"); else if (!eb_extract(&Q, e) || !bpt_eq(P, Q)) vf_fail(NULL, "eb_upk(eb_pck(P)) != P"); } }
+}
+
+
+/* user-configured trinomials / pentanomials z^m + z^a [+ z^b + z^c] + 1: args a, b, c (b = 0: trinomial), x, y.
+ * The word-level fast reduction folds a whole digit at a time and is only right when m - a >= RLC_DIG (Hankerson-Menezes-Vanstone, Alg. 2.41 ff.);
+ * the setters do not state or check that (finding L46). Runs in the tiny build only, restores the default polynomial. */
+static void do_polyprobe(vf_case *c) {
+	int th; int a = (int)mpz_get_si(c->v[0]), b = (int)mpz_get_si(c->v[1]), cc = (int)mpz_get_si(c->v[2]);
+	gf2 save = GF_POLY; int t[3] = {a, b, cc}; gf_set_poly(GF_M, t, b ? 3 : 1);
+	{ gf2 x = gf_from_u64(2), y = x; for (int i = 0; i < GF_M; i++) y = gf_sqr(y); int wt = 0; for (int i = 0; i <= GF_M; i++) wt += gf_bit(GF_POLY, i); if (!gf_eq(x, y) || !(wt & 1)) { GF_POLY = save; return; } } /* not irreducible: not offered */
+	const char *kf = (GF_M - a < (int)RLC_DIG) ? "L46-fast-reduction-needs-m-minus-a-at-least-a-digit" : NULL;
+	if (b) VF_TRY(th, fb_poly_set_penta(a, b, cc)); else VF_TRY(th, fb_poly_set_trino(a));
+	if (th) vf_stat_add("x.user_polynomial_refused_by_setter", 1); /* e.g. more than three trace-one basis elements: reported, not computed */
+	else { gf2 x = gf_from_mpz(c->v[3]), y = gf_from_mpz(c->v[4]), pr = gf_mul(x, y);
+		static const struct { const char *n; fb_bin f; } BIN[] = {{"fb_mul_basic", fb_mul_basic}, {"fb_mul_integ", fb_mul_integ}, {"fb_mul_lodah", fb_mul_lodah}};
+		for (int i = 0; i < 3; i++) { fb_from_gf(A, x); fb_from_gf(B, y); junk(C); VF_TRY(th, BIN[i].f(C, A, B)); char w[64]; snprintf(w, sizeof w, "%s mod (%d,%d,%d)", BIN[i].n, a, b, cc); if (th) vf_fail(kf, "%s raised", w); else expect_fb(w, C, pr, kf); }
+		fb_from_gf(A, x); junk(C); VF_TRY(th, fb_sqr_quick(C, A)); if (th) vf_fail(kf, "fb_sqr_quick mod (%d,%d,%d) raised", a, b, cc); else { char w[64]; snprintf(w, sizeof w, "fb_sqr_quick mod (%d,%d,%d)", a, b, cc); expect_fb(w, C, gf_sqr(x), kf); } }
+	GF_POLY = save; VF_TRY(th, fb_poly_set_trino(3)); if (th) { fprintf(stderr, "cannot restore the default polynomial\n"); exit(2); }
+	cur_cid = -99;
+}
+
 static void run_case(vf_case *c) {
 	vf_nontrivial();
 	if (!strncmp(c->op, "eb", 2)) { if (!select_bcurve(mpz_get_si(c->v[0]))) { vf_fail(NULL, "binary curve %ld could not be installed", mpz_get_si(c->v[0])); return; } }
 	if (!strcmp(c->op, "fbun")) do_fbun(c); else if (!strcmp(c->op, "fbbin")) do_fbbin(c); else if (!strcmp(c->op, "fbexp")) do_fbexp(c); else if (!strcmp(c->op, "fbcodec")) do_fbcodec(c);
+	else if (!strcmp(c->op, "polyprobe")) do_polyprobe(c); else if (!strcmp(c->op, "fb2")) do_fb2(c); else if (!strcmp(c->op, "fbmisc")) do_fbmisc(c); else if (!strcmp(c->op, "fbstr")) do_fbstr(c); else if (!strcmp(c->op, "ebdec")) do_ebdec(c); else if (!strcmp(c->op, "ebenc")) do_ebenc(c);
 	else if (!strcmp(c->op, "eblaw")) do_eblaw(c); else if (!strcmp(c->op, "ebmisc")) do_ebmisc(c); else if (!strcmp(c->op, "ebmul")) do_ebmul(c); else if (!strcmp(c->op, "ebsim")) do_ebsim(c);
 	else vf_fail(NULL, "unknown op");
 }
@@ -332,10 +502,35 @@ static void enumerate(void) {
 			mpz_set_ui(b, 1); mpz_mul_2exp(b, b, (unsigned long)GF_M); for (int dlt = -2; dlt <= 1; dlt++) { if (dlt < 0) mpz_sub_ui(a, b, (unsigned long)-dlt); else mpz_add_ui(a, b, (unsigned long)dlt); K.op = "fbexp"; K.n = 2; mpz_set(K.v[0], fa.v[i]); mpz_set(K.v[1], a); vf_run(&K); mpz_neg(K.v[1], a); vf_run(&K); }
 		}
 		if (tiny) for (long e = -300; e <= 300; e++) if (vf_mine()) for (unsigned long x = 0; x < 6; x++) { K.op = "fbexp"; K.n = 2; mpz_set_ui(K.v[0], x == 5 ? 0x1FFFF : x); mpz_set_si(K.v[1], e); vf_run(&K); }
+		vf_bound_done("field");
+	}
+	if (tiny && !alt_poly && vf_bound_on("user-polynomials")) {
+		/* every trinomial and every pentanomial of degree 17 (irreducible ones are kept by the case itself) x an operand alphabet */
+		for (int pa = 1; pa < GF_M; pa++) for (int pb = 0; pb < pa; pb++) for (int pc = (pb ? 1 : 0); pc < (pb ? pb : 1); pc++) if (vf_mine())
+			for (int i = 0; i < fa.n; i += 2) for (int j = 1; j < fa.n; j += 5) { K.op = "polyprobe"; K.n = 5; mpz_set_si(K.v[0], pa); mpz_set_si(K.v[1], pb); mpz_set_si(K.v[2], pc); mpz_set(K.v[3], fa.v[i]); mpz_set(K.v[4], fa.v[j]); vf_run(&K); }
+		vf_bound_done("user-polynomials");
+	}
+	if (vf_bound_on("fb-codec")) {
 		/* codec: every 3-byte string in the tiny field; alphabets at 283 bits */
 		if (tiny) { for (unsigned long x = 0; x < (1UL << 24) && !vf_expired(); x += (x < (1UL << 18) ? 1 : 257)) if (vf_mine()) { K.op = "fbcodec"; K.n = 2; mpz_set_ui(K.v[0], 3); mpz_set_ui(K.v[1], x); vf_run(&K); } for (int l = 0; l < 6; l++) if (vf_mine()) { K.op = "fbcodec"; K.n = 2; mpz_set_ui(K.v[0], (unsigned long)l); mpz_set_ui(K.v[1], l ? 1 : 0); vf_run(&K); } }
 		else for (int i = 0; i < fa.n; i++) if (vf_mine()) for (int l = 34; l <= 38; l++) { K.op = "fbcodec"; K.n = 2; mpz_set_ui(K.v[0], (unsigned long)l); mpz_set(K.v[1], fa.v[i]); vf_run(&K); mpz_set_ui(b, 1); mpz_mul_2exp(b, b, (unsigned long)GF_M + (unsigned long)(i % 5)); mpz_add(K.v[1], fa.v[i], b); vf_run(&K); }
-		vf_bound_done("field");
+		/* strings: every element (tiny) / the alphabet */
+		if (tiny) { for (unsigned long x = 0; x < (1UL << GF_M) && !vf_expired(); x++) if (vf_mine()) { K.op = "fbstr"; K.n = 1; mpz_set_ui(K.v[0], x); vf_run(&K); } }
+		for (int i = 0; i < fa.n; i++) if (vf_mine()) { K.op = "fbstr"; K.n = 1; mpz_set(K.v[0], fa.v[i]); vf_run(&K); }
+		vf_bound_done("fb-codec");
+	}
+	if (vf_bound_on("fb2-and-misc")) {
+		int ns = fa.n < 6 ? fa.n : 6;
+		if (tiny) { unsigned long M = (1UL << GF_M) - 1; for (unsigned long x = 0; x <= M && !vf_expired(); x++) if (vf_mine()) { unsigned long x2 = (x * 0x9E37UL + 0x1234UL) & M; int j1 = (int)(x % (unsigned long)fa.n), j2 = (int)((x / 7) % (unsigned long)fa.n);
+				K.op = "fbmisc"; K.n = 2; mpz_set_ui(K.v[0], x); mpz_set(K.v[1], fa.v[j1]); vf_run(&K); mpz_set_ui(K.v[1], x2); vf_run(&K);
+				K.op = "fb2"; K.n = 4; mpz_set_ui(K.v[0], x); mpz_set(K.v[1], fa.v[j1]); mpz_set_ui(K.v[2], x2); mpz_set(K.v[3], fa.v[j2]); vf_run(&K);
+				mpz_set(K.v[0], fa.v[j1]); mpz_set_ui(K.v[1], x); mpz_set(K.v[2], fa.v[j2]); mpz_set_ui(K.v[3], x2); vf_run(&K);
+				mpz_set_ui(K.v[0], x); mpz_set_ui(K.v[1], x2); mpz_set_ui(K.v[2], x); mpz_set_ui(K.v[3], x2); vf_run(&K);
+				mpz_set_ui(K.v[0], x2); mpz_set_ui(K.v[1], x); mpz_set_ui(K.v[2], (x2 * 31 + x) & M); mpz_set_ui(K.v[3], (x ^ (x2 >> 3)) & M); vf_run(&K); } }
+		for (int i = 0; i < fa.n && !vf_expired(); i++) for (int j = 0; j < fa.n; j++) if (vf_mine()) { K.op = "fbmisc"; K.n = 2; mpz_set(K.v[0], fa.v[i]); mpz_set(K.v[1], fa.v[j]); vf_run(&K);
+			for (int k = 0; k < ns; k++) for (int l = 0; l < ns; l++) { K.op = "fb2"; K.n = 4; mpz_set(K.v[0], fa.v[i]); mpz_set(K.v[1], fa.v[j]); mpz_set(K.v[2], fa.v[(k * 5 + i) % fa.n]); mpz_set(K.v[3], fa.v[(l * 7 + j) % fa.n]); vf_run(&K); }
+			K.op = "fb2"; K.n = 4; mpz_set(K.v[0], fa.v[i]); mpz_set(K.v[1], fa.v[j]); mpz_set(K.v[2], fa.v[i]); mpz_set(K.v[3], fa.v[j]); vf_run(&K); }
+		vf_bound_done("fb2-and-misc");
 	}
 #if WSIZE != 64
 	int ncur = ntc; long cids[8]; for (int i = 0; i < ncur; i++) cids[i] = i;
@@ -348,6 +543,7 @@ static void enumerate(void) {
 	int ncur = 2; long cids[2] = {NIST_B283, NIST_K283};
 #endif
 #endif
+	if (alt_poly) ncur = 0; /* the curves are defined over the default polynomial */
 	for (int ci = 0; ci < ncur; ci++) {
 		char bn[64]; snprintf(bn, sizeof bn, "binary-curve-%ld", cids[ci]);
 		if (!vf_bound_on(bn)) continue;
@@ -368,6 +564,42 @@ static void enumerate(void) {
 		for (int j = 0; j < S.n; j++) if (vf_mine()) { K.op = "ebmul"; K.n = 4; mpz_set_si(K.v[0], cid); setb(1, RG); mpz_set(K.v[3], S.v[j]); vf_run(&K); setb(1, P5); vf_run(&K); setb(1, pts[0]); vf_run(&K); } }
 		{ long rel[] = {7, 1, -1, 2, -2}; for (unsigned ri = 0; ri < 5; ri++) { mpz_set_si(a, rel[ri]); bpt Q = bpt_mul(RG, a); for (int i = 0; i < S.n && !vf_expired(); i += (tiny ? 1 : 2)) for (int j = i % 3; j < S.n; j += 3) if (vf_mine()) { K.op = "ebsim"; K.n = 7; mpz_set_si(K.v[0], cid); setb(1, RG); mpz_set(K.v[3], S.v[i]); setb(4, Q); mpz_set(K.v[6], S.v[j]); vf_run(&K); } } }
 		vf_dom_clear(&S);
+		vf_bound_done(bn);
+	}
+	for (int ci = 0; ci < ncur; ci++) {
+		char bn[64]; snprintf(bn, sizeof bn, "ebcodec-curve-%ld", cids[ci]);
+		if (!vf_bound_on(bn)) continue;
+		long cid = cids[ci]; if (!select_bcurve(cid)) { vf_fail(NULL, "binary curve install failed"); continue; }
+		unsigned long FBL = RLC_FB_BYTES; long tags[] = {0, 1, 2, 3, 4, 5, 6, 7, 0xFF};
+		/* identity and wrong lengths */
+		for (unsigned long len = 0; len <= 2 * FBL + 3; len++) for (unsigned t = 0; t < 9; t++) if (vf_mine()) { if (len == FBL + 1 || len == 2 * FBL + 1) continue; K.op = "ebdec"; K.n = 5; mpz_set_si(K.v[0], cid); mpz_set_ui(K.v[1], len); mpz_set_si(K.v[2], tags[t]); gf_to_mpz(K.v[3], RG.x); gf_to_mpz(K.v[4], RG.y); vf_run(&K); mpz_set_ui(K.v[3], 0); mpz_set_ui(K.v[4], 0); vf_run(&K); }
+		if (tiny) {
+			unsigned long M = 1UL << GF_M;
+			for (unsigned long x = 0; x < M && !vf_expired(); x++) if (vf_mine()) { vf_stat_add("states", 1);
+				gf2 X = gf_from_u64(x); bpt P; P.inf = 0; P.x = X; int on = 0; gf2 y0 = gf_zero();
+				if (x == 0) { on = 1; y0 = gf_sqrt(EB_B); } else { gf2 xi = gf_inv(X); gf2 cc = gf_add(gf_add(X, EB_A), gf_mul(EB_B, gf_sqr(xi))); if (!gf_trace(cc)) { on = 1; y0 = gf_mul(gf_htrace(cc), X); } }
+				/* compressed form: every tag for this abscissa, and the abscissa with each of the unused high bits set */
+				for (unsigned t = 0; t < 9; t++) { K.op = "ebdec"; K.n = 5; mpz_set_si(K.v[0], cid); mpz_set_ui(K.v[1], FBL + 1); mpz_set_si(K.v[2], tags[t]); mpz_set_ui(K.v[3], x); mpz_set_ui(K.v[4], 0); vf_run(&K); }
+				for (unsigned long hb = GF_M; hb < 8 * FBL; hb++) for (long t = 2; t <= 3; t++) { K.op = "ebdec"; K.n = 5; mpz_set_si(K.v[0], cid); mpz_set_ui(K.v[1], FBL + 1); mpz_set_si(K.v[2], t); mpz_set_ui(K.v[3], x | (1UL << hb)); mpz_set_ui(K.v[4], 0); vf_run(&K); }
+				/* uncompressed form: both ordinates when on the curve, neighbours of them, an arbitrary ordinate, wrong tags, high bits */
+				gf2 ys[6]; int ny = 0; if (on) { ys[ny++] = y0; ys[ny++] = gf_add(y0, X); ys[ny++] = gf_add(y0, gf_one()); ys[ny++] = gf_add(gf_add(y0, X), gf_one()); } ys[ny++] = gf_from_u64((x * 0x51ED + 3) & (M - 1)); ys[ny++] = gf_zero();
+				for (int yi = 0; yi < ny; yi++) { K.op = "ebdec"; K.n = 5; mpz_set_si(K.v[0], cid); mpz_set_ui(K.v[1], 2 * FBL + 1); mpz_set_si(K.v[2], 4); mpz_set_ui(K.v[3], x); gf_to_mpz(K.v[4], ys[yi]); vf_run(&K);
+					if (yi < 2) { for (unsigned t = 0; t < 9; t++) if (tags[t] != 4) { mpz_set_si(K.v[2], tags[t]); vf_run(&K); } mpz_set_si(K.v[2], 4);
+						for (unsigned long hb = GF_M; hb < 8 * FBL; hb += 3) { mpz_set_ui(K.v[3], x | (1UL << hb)); vf_run(&K); mpz_set_ui(K.v[3], x); mpz_setbit(K.v[4], hb); vf_run(&K); mpz_clrbit(K.v[4], hb); } } }
+				/* encoding direction on every point of the curve */
+				if (on) { P.y = y0; K.op = "ebenc"; K.n = 3; mpz_set_si(K.v[0], cid); setb(1, P); vf_run(&K); P.y = gf_add(y0, X); if (x) { setb(1, P); vf_run(&K); } }
+			}
+		} else {
+			vf_dom fx; vf_dom_init(&fx); field_alphabet(&fx);
+			bpt acc = RG; bpt pl[40]; int np = 0; pl[np++] = bpt_inf(); { bpt t2; t2.inf = 0; t2.x = gf_zero(); t2.y = gf_sqrt(EB_B); pl[np++] = t2; } for (int i = 0; i < 12; i++) { pl[np++] = acc; pl[np++] = bpt_neg(acc); acc = bpt_add(bpt_dbl(acc), RG); }
+			for (int i = 0; i < np; i++) if (vf_mine()) { K.op = "ebenc"; K.n = 3; mpz_set_si(K.v[0], cid); setb(1, pl[i]); vf_run(&K); if (pl[i].inf) continue;
+				for (unsigned t = 0; t < 9; t++) { K.op = "ebdec"; K.n = 5; mpz_set_si(K.v[0], cid); mpz_set_si(K.v[2], tags[t]); gf_to_mpz(K.v[3], pl[i].x); gf_to_mpz(K.v[4], pl[i].y);
+					mpz_set_ui(K.v[1], FBL + 1); vf_run(&K); mpz_set_ui(K.v[1], 2 * FBL + 1); vf_run(&K); gf_to_mpz(K.v[4], gf_add(pl[i].y, gf_one())); vf_run(&K);
+					for (unsigned long hb = GF_M; hb < 8 * FBL; hb++) { mpz_setbit(K.v[3], hb); mpz_set_ui(K.v[1], FBL + 1); vf_run(&K); mpz_set_ui(K.v[1], 2 * FBL + 1); vf_run(&K); mpz_clrbit(K.v[3], hb); gf_to_mpz(K.v[4], pl[i].y); mpz_setbit(K.v[4], hb); vf_run(&K); mpz_clrbit(K.v[4], hb); } } }
+			/* abscissas from the field alphabet: on the curve or not, both tags */
+			for (int i = 0; i < fx.n; i++) if (vf_mine()) for (long t = 2; t <= 4; t++) { K.op = "ebdec"; K.n = 5; mpz_set_si(K.v[0], cid); mpz_set_ui(K.v[1], t == 4 ? 2 * FBL + 1 : FBL + 1); mpz_set_si(K.v[2], t); mpz_set(K.v[3], fx.v[i]); mpz_set(K.v[4], fx.v[(i * 3 + 1) % fx.n]); vf_run(&K); }
+			vf_dom_clear(&fx);
+		}
 		vf_bound_done(bn);
 	}
 	vf_stat_add("transitions", transitions);
